@@ -173,6 +173,29 @@ def random_case(ctx, idx, rng):
     ctx.event('max_steps_over_n2', 0)
 
 
+def staircase_case(ctx, idx, rng):
+    """Adversarial path blocks of pairwise different lengths (see gen.staircase_bipartite): one Hopcroft-Karp phase per distinct block size;
+    the number of BFS phases actually run is observed through a monitor on the phase routine and recorded."""
+    import pytenet.bipartite_graph as bg
+    nu, nv, edges, nsizes, _ = gen.staircase_bipartite(rng)
+    r = refs.max_matching_kuhn(nu, nv, edges)
+    phases = [0]
+
+    def around(orig, self):
+        phases[0] += 1
+        return orig(self)
+    ctx.case(('staircase', f'sizes{min(nsizes, 6)}', 'U<=9' if nu <= 9 else ('U<=20' if nu <= 20 else 'U>20'), 'swapped' if edges and edges[0][0] > edges[0][1] else 'plain'),
+             sample={'nu': nu, 'nv': nv, 'edges': edges[:60], 'distinct_block_sizes': nsizes})
+    n = nu + nv + len(set(edges))
+    with monitor.attached(bg.HopcroftKarp._HopcroftKarp__connect_unmatched_vertices, around):
+        g = ptn.BipartiteGraph(nu, nv, edges)
+        solver = ptn.HopcroftKarp(g)
+        m = solver()
+    ctx.event(f'staircase_bfs_phases={phases[0]:02d}')         # histogram of the number of phases the real solver went through
+    with monitor.StepCounter(bg) as sc:
+        check_graph(ctx, nu, nv, edges, r, budget=(sc, 50 * n * n + 1000))
+
+
 def insitu_case(ctx, idx, rng):
     """minimum_vertex_cover as driven by from_opchains while compiling real Hamiltonians and random chain lists."""
     seen = [0]
@@ -230,6 +253,7 @@ SPEC = {
                  exhaustive={'space': 'all ordered edge lists with repetitions of length <= nu*nv+1 for every shape with nu*nv <= 4'}),
         Workload('duplicate-lengths', duplicate_lengths_case, quick=1500, thorough=200000),
         Workload('random', random_case, quick=600, thorough=100000),
+        Workload('staircase', staircase_case, quick=400, thorough=60000),
         Workload('insitu', insitu_case, quick=60, thorough=6000),
     ],
     'shards': {'quick': 4, 'thorough': 16},
